@@ -13,6 +13,9 @@ type FileStream struct {
 	encBuffer []byte
 	path      string
 	hasRead   bool
+	// progressed - the last read() consumed bytes (even if it yielded no
+	// character: part of a multi-byte character, or the byte-order mark only)
+	progressed bool
 }
 
 const (
@@ -47,7 +50,9 @@ func (f *FileStream) ReadAll() ([]rune, error) {
 			return []rune{}, err
 		}
 
-		if len(res) == 0 {
+		// the end is reached when a read brings nothing at all - a short read
+		// (pipe, terminal) may well bring bytes that complete no character yet
+		if len(res) == 0 && !f.progressed {
 			break
 		}
 		result = append(result, res...)
@@ -71,16 +76,20 @@ func (f *FileStream) GetPath() string {
 }
 
 func (f *FileStream) read(n int) ([]rune, error) {
+	pending := len(f.encBuffer)
 	data, remains, err := readRune(f.reader, f.encBuffer, n)
 	if err != nil {
 		return []rune{}, err
 	}
+	f.progressed = len(data) > 0 || len(remains) > pending
 	f.encBuffer = remains
 
-	if !f.hasRead {
+	// the first character of the file (it may arrive only with a later read
+	// when the reads are short)
+	if !f.hasRead && len(data) > 0 {
 		f.hasRead = true
 		// detect BOM, if BOM on the first char, then remove it directly.
-		if len(data) > 0 && data[0] == BOM {
+		if data[0] == BOM {
 			data = data[1:]
 		}
 	}
